@@ -238,6 +238,8 @@ def gen_statement(e, d, family, quick):
             ix = [['name', 'ix1'], ['col', 'id'] + ([['Desc']][0] if e.choose(2, 'ixorder') else [])]
             if e.choose(2, 'ixcol2'): ix.append(['col', 'name'])
             if ik == 2: ix.append(['unique'])
+            if d == 'postgres' and ik in (2, 3) and e.choose(2, 'ixinclude'): ix.append(['include', 'name'])
+            if d == 'postgres' and ik == 2 and e.choose(2, 'ixnnd'): ix.append(['nulls_not_distinct'])
             calls.append(['primary_key' if ik == 3 else 'index', {'k': 'index_create', 'calls': ix}])
         if e.choose(2, 'fk'):
             fk = [['name', 'fk1'], ['from_tbl', T], ['from_col', 'ref_id'], ['to_tbl', ['t', 'other']], ['to_col', 'id']]
